@@ -611,9 +611,16 @@ func (pr *propResult) finish(eng *Engine, cfg *PropConfig, tier string, seed int
 		"coverage": cov, "assumptions": assumptions,
 		"wall_s": time.Since(start).Seconds(), "violations": violations,
 	}
-	os.MkdirAll(filepath.Join(vd, "evidence"), 0o755)
+	// VERIF_EVIDENCE_DIR: where the evidence file goes (the corpora of /verif/selftest run the checks
+	// against patched trees and must not overwrite the evidence of the unchanged tree); unset in
+	// every registered command
+	evDir := filepath.Join(vd, "evidence")
+	if d := os.Getenv("VERIF_EVIDENCE_DIR"); d != "" {
+		evDir = d
+	}
+	os.MkdirAll(evDir, 0o755)
 	if !replayMode {
-		writeJSON(filepath.Join(vd, "evidence", id+".json"), ev)
+		writeJSON(filepath.Join(evDir, id+".json"), ev)
 	}
 	os.RemoveAll(pr.workDir)
 	for _, l := range violationLines {
